@@ -215,10 +215,10 @@ pub fn rec_probes(a: &Args, out: &mut Out) {
         ks.dedup();
         out.emit(json!({"ev": "ProbeBegin", "id": f.id, "w": f.w, "kind": f.kind, "ftype": f.ftype}));
         for k in ks {
-            for t16 in [0u32, 1, 4, 7, 8, 9, 12, 15] {
-                let p = probe(k, t16 as f64 / 16.0);
+            for (tnum, tden) in [(0u32, 4u32), (1, 4), (4, 4), (7, 4), (8191, 14), (8, 4), (8193, 14), (9, 4), (12, 4), (15, 4)] {
+                let p = probe(k, tnum as f64 / (1u32 << tden) as f64);
                 let err_q20 = if p.err_units.is_finite() { (p.err_units * 1048576.0).min(1.0e9) as i64 } else { 1_000_000_000 };
-                out.emit(json!({"ev": "Probe", "id": f.id, "kbits": bits_of(k as i128, 64), "t16": t16, "enc_err": p.enc_err,
+                out.emit(json!({"ev": "Probe", "id": f.id, "kbits": bits_of(k as i128, 64), "tnum": tnum, "tden": tden, "enc_err": p.enc_err,
                     "kout": bits_of(p.kout, 64), "err_q20": err_q20, "dec_absent": p.dec_absent, "finite_x": p.x.is_finite()}));
             }
         }
@@ -236,8 +236,8 @@ pub fn rec_probes(a: &Args, out: &mut Out) {
         ks.dedup();
         out.emit(json!({"ev": "ProbeBegin", "id": format!("bias{}", num), "w": w, "kind": "s", "ftype": "f32"}));
         for k in ks {
-            for t16 in [0u32, 1, 4, 7, 8, 9, 12, 15] {
-                let x: f32 = ((k as f32) + (t16 as f32) / 16.0) * res;
+            for (tnum, tden) in [(0u32, 4u32), (1, 4), (4, 4), (7, 4), (8191, 14), (8, 4), (8193, 14), (9, 4), (12, 4), (15, 4)] {
+                let x: f32 = ((k as f32) + (tnum as f32) / ((1u32 << tden) as f32)) * res;
                 let m = if num == 1230 {
                     crate::special_msm::msg1230(&mut r, &[(1, 'P', x)])
                 } else {
@@ -282,7 +282,7 @@ pub fn rec_probes(a: &Args, out: &mut Out) {
                         raw -= 1i64 << w;
                     }
                     let err = (((y - x) / res).abs() as f64 * 1048576.0).min(1.0e9) as i64;
-                    out.emit(json!({"ev": "Probe", "id": format!("bias{}", num), "kbits": bits_of(k as i128, 64), "t16": t16, "enc_err": false,
+                    out.emit(json!({"ev": "Probe", "id": format!("bias{}", num), "kbits": bits_of(k as i128, 64), "tnum": tnum, "tden": tden, "enc_err": false,
                         "kout": bits_of(raw as i128, 64), "err_q20": err, "dec_absent": false, "finite_x": true}));
                 }
             }
